@@ -348,7 +348,7 @@ def standard_native(ctx, pid, binaries):
     max_ops = 40
     for (profile, hooks), binary in binaries.items():
         label = "native-%s-hooks-%s" % (profile, "on" if hooks else "off")
-        run_native(ctx, binary, label, pid, episodes, max_ops)
+        run_native(ctx, binary, label, pid, episodes, max_ops, extra=["--drop-panics"] if pid in ("C06", "C07") else [])
         ctx.subruns.append({"engine": "gendrv", "build": label, "episodes_per_module_and_capacity": episodes, "max_operations_per_episode": max_ops})
 
 
